@@ -1566,6 +1566,9 @@ fn ctl_cols_a<F: VF>() -> (Vec<Column<F>>, Filter<F>) {
 fn ctl_cols_b<F: VF>() -> (Vec<Column<F>>, Filter<F>) {
     (vec![Column::single(1), Column::single_next_row(0)], Filter::new(vec![(Column::single(2), Column::single(2))], vec![]))
 }
+fn ctl_cols_c<F: VF>() -> (Vec<Column<F>>, Filter<F>) {
+    (vec![Column::single(2), Column::single(0)], Filter::new_simple(Column::single(1)))
+}
 fn comb<E: Field>(v: &[E], beta: E, gamma: E) -> E {
     let mut s = gamma;
     for (i, x) in v.iter().enumerate() {
@@ -1584,6 +1587,9 @@ enum CtlVariant {
     PairTwoHelpers,
     /// two column sets and no helper column
     PairNoHelper,
+    /// three column sets from the same table at constraint degree 3: one helper column for the
+    /// first two, one for the third alone (a last batch that is not full)
+    TripleTwoHelpers,
 }
 
 impl CtlVariant {
@@ -1594,6 +1600,7 @@ impl CtlVariant {
             CtlVariant::PairHelper => (2, 1, 3),
             CtlVariant::PairTwoHelpers => (2, 2, 2),
             CtlVariant::PairNoHelper => (2, 0, 3),
+            CtlVariant::TripleTwoHelpers => (3, 2, 3),
         }
     }
 }
@@ -1607,21 +1614,25 @@ fn ctl_ref<E: Field>(v: CtlVariant, lv: &[E], nv: &[E], h: &[E], z: E, zn: E, be
     let f0 = lv[2];
     let c1 = comb(&[lv[1], nv[0]], beta, gamma);
     let f1 = lv[2] * lv[2];
+    let c2 = comb(&[lv[2], lv[0]], beta, gamma);
+    let f2 = lv[1];
     match v {
         CtlVariant::Single => vec![(K::Last, c0 * z - f0), (K::Trans, c0 * (z - zn) - f0)],
         CtlVariant::PairHelper => vec![(K::All, c0 * c1 * h[0] - (f0 * c1 + f1 * c0)), (K::Last, z - h[0]), (K::Trans, z - zn - h[0])],
         CtlVariant::PairTwoHelpers => vec![(K::All, c0 * h[0] - f0), (K::All, c1 * h[1] - f1), (K::Last, z - (h[0] + h[1])), (K::Trans, z - zn - (h[0] + h[1]))],
         CtlVariant::PairNoHelper => vec![(K::Last, c0 * c1 * z - (f0 * c1 + f1 * c0)), (K::Trans, c0 * c1 * (z - zn) - (f0 * c1 + f1 * c0))],
+        CtlVariant::TripleTwoHelpers => vec![(K::All, c0 * c1 * h[0] - (f0 * c1 + f1 * c0)), (K::All, c2 * h[1] - f2), (K::Last, z - (h[0] + h[1])), (K::Trans, z - zn - (h[0] + h[1]))],
     }
 }
 
 fn ctl_obs<F: VF>(ctx: &mut Ctx) {
-    let variants = [CtlVariant::Single, CtlVariant::PairHelper, CtlVariant::PairTwoHelpers, CtlVariant::PairNoHelper];
+    let variants = [CtlVariant::Single, CtlVariant::PairHelper, CtlVariant::PairTwoHelpers, CtlVariant::PairNoHelper, CtlVariant::TripleTwoHelpers];
     // --- evaluator against the reference, and the in-circuit twin against the native evaluator
     for v in variants {
         let (nsets, nhelp, deg) = v.shape();
         let (ca, fa) = ctl_cols_a::<F>();
         let (cb, fb) = ctl_cols_b::<F>();
+        let (cc, fc) = ctl_cols_c::<F>();
         let idp = format!("C10.S.stark.ctl.{v:?}.reference");
         ctx.guarded(&idp.clone(), F_CTL, |ctx| {
             if F::SYMBOLIC {
@@ -1636,9 +1647,13 @@ fn ctl_obs<F: VF>(ctx: &mut Ctx) {
             let (zl, lf, ll) = (F::ext("zlast"), F::ext("lfirst"), F::ext("llast"));
             let mut columns: Vec<&[Column<F>]> = vec![&ca[..]];
             let mut filters = vec![fa.clone()];
-            if nsets == 2 {
+            if nsets >= 2 {
                 columns.push(&cb[..]);
                 filters.push(fb.clone());
+            }
+            if nsets >= 3 {
+                columns.push(&cc[..]);
+                filters.push(fc.clone());
             }
             let cv = hk::ctl_check_vars::<F, Ext<F>, Ext<F>, 2>(h.clone(), z, zn, GrandProductChallenge { beta, gamma }, columns, filters);
             let vars = <CtlS<F, 2> as Stark<F, 2>>::EvaluationFrame::<Ext<F>, Ext<F>, 2>::from_values(&lv, &nv, &[]);
@@ -1685,9 +1700,13 @@ fn ctl_obs<F: VF>(ctx: &mut Ctx) {
                     let (z, zn, lf, ll) = (e[o], e[o + 1], e[o + 2], e[o + 3]);
                     let mut columns: Vec<&[Column<F>]> = vec![&ca[..]];
                     let mut filters = vec![fa.clone()];
-                    if nsets == 2 {
+                    if nsets >= 2 {
                         columns.push(&cb[..]);
                         filters.push(fb.clone());
+                    }
+                    if nsets >= 3 {
+                        columns.push(&cc[..]);
+                        filters.push(fc.clone());
                     }
                     let cv = hk::ctl_check_vars::<F, Ext<F>, Ext<F>, 2>(h, z, zn, GrandProductChallenge { beta, gamma }, columns, filters);
                     let vars = <CtlS<F, 2> as Stark<F, 2>>::EvaluationFrame::<Ext<F>, Ext<F>, 2>::from_values(lv, nv, &[]);
@@ -1720,10 +1739,15 @@ fn ctl_obs<F: VF>(ctx: &mut Ctx) {
             let mut columns: Vec<&[Column<F>]> = vec![&ca[..]];
             let mut columns_t: Vec<Vec<Column<F>>> = vec![ca.clone()];
             let mut filters = vec![fa.clone()];
-            if nsets == 2 {
+            if nsets >= 2 {
                 columns.push(&cb[..]);
                 columns_t.push(cb.clone());
                 filters.push(fb.clone());
+            }
+            if nsets >= 3 {
+                columns.push(&cc[..]);
+                columns_t.push(cc.clone());
+                filters.push(fc.clone());
             }
             let cv = hk::ctl_check_vars::<F, Ext<F>, Ext<F>, 2>(h.clone(), z, zn, GrandProductChallenge { beta, gamma }, columns, filters.clone());
             let vars = <CtlS<F, 2> as Stark<F, 2>>::EvaluationFrame::<Ext<F>, Ext<F>, 2>::from_values(&lv, &nv, &[]);
